@@ -197,11 +197,15 @@ func checkC19(c *Check) {
 			if v, isV := dec.(ssa.Value); isV {
 				if refs := v.Referrers(); refs != nil {
 					for _, r := range *refs {
-						if bo, isB := r.(*ssa.BinOp); isB && bo.Op == token.NEQ {
+						if bo, isB := r.(*ssa.BinOp); isB && (bo.Op == token.NEQ || bo.Op == token.EQL) && isNilConst(bo.Y) {
 							for _, u := range *bo.Referrers() {
 								if iff, isI := u.(*ssa.If); isI {
-									// on the error edge the message's descriptors are closed (loop over them, or a helper) before the return
+									// on the error edge (whichever way the test is written) the message's descriptors are closed
+									// (loop over them, or a helper) before the return
 									eb := iff.Block().Succs[0]
+									if bo.Op == token.EQL {
+										eb = iff.Block().Succs[1]
+									}
 									found := true
 									for _, c2 := range callInstrs(cr) {
 										n2, callee2 := calleeOf(c2)
